@@ -7,7 +7,8 @@
 //!
 //! A history runs on a fresh thread and is a sequence of 66,700 conversions of 1x1 images. Two "sides" are
 //! two (source type, conversion, config) choices that accept the same pixel data. The layout:
-//!   * for each period P in {255, 256, 65535, 65536} a private set of 64 test pixels is converted once under
+//!   * for each period P in {255, 256, 65535, 65536} (64 pixels each) and in {15, 16, 31, 32, ..., 1000, 1023, 1024, ...,
+//!     10000, ..., 32767, 32768} (12 pixels each) a private set of test pixels is converted once under
 //!     side A and exactly P calls later under side B, and never in between (so whatever the first visit left
 //!     behind - in a table of any size and geometry - is still there, with a tag that is P calls old);
 //!   * all other calls convert one of two filler pixels, alternating sides;
@@ -41,28 +42,44 @@ pub struct Job {
 pub const PERIODS: [usize; 4] = [255, 256, 65535, 65536];
 const K: usize = 64;
 const WRAPS: [usize; 8] = [254, 255, 256, 257, 65534, 65535, 65536, 65537];
-/// pixel table: 0,1 fillers; 2..10 specials; 10.. test pixels (4 x K)
-const N_PIX: usize = 10 + 4 * K;
+/// further distances, probed with K2 pixels each: powers of two and their predecessors, round decimal numbers
+/// (ring buffers, "every n-th call" housekeeping)
+pub const MINOR_PERIODS: [usize; 25] = [15, 16, 31, 32, 63, 64, 100, 127, 128, 511, 512, 1000, 1023, 1024, 2047, 2048, 4095, 4096, 8191, 8192, 10000, 16383, 16384, 32767, 32768];
+const K2: usize = 12;
+/// pixel table: 0,1 fillers; 2..10 specials; then 4 x K test pixels of the main periods, then 25 x K2 of the minor ones
+const N_PIX: usize = 10 + 4 * K + 25 * K2;
 
 /// (pixel index, side) for every call
 fn layout(variant: usize) -> Vec<(usize, usize)> {
     let len = 66_700;
     let mut seq: Vec<(usize, usize)> = (0..len).map(|j| (j % 2, (j / 2) % 2)).collect();
-    // first visits in blocks of K calls, placed so that no visit falls on a wrap index
-    let starts = [300usize, 364, 1000, 1064];
-    for (pi, p) in PERIODS.iter().enumerate() {
-        for k in 0..K {
-            let px = 10 + pi * K + k;
-            let first = starts[pi] + k;
-            seq[first] = (px, 0);
-            seq[first + p] = (px, 1);
+    let mut taken = vec![false; len];
+    for w in WRAPS {
+        taken[w] = true;
+    }
+    // first visits in blocks, placed greedily so that neither visit of a pixel falls on an occupied call index
+    let mut cursor = 300usize;
+    let mut place = |seq: &mut Vec<(usize, usize)>, taken: &mut Vec<bool>, px0: usize, k: usize, p: usize| {
+        let mut base = cursor;
+        while (0..k).any(|i| taken[base + i] || taken[base + i + p]) {
+            base += 1;
         }
+        for i in 0..k {
+            seq[base + i] = (px0 + i, 0);
+            seq[base + i + p] = (px0 + i, 1);
+            taken[base + i] = true;
+            taken[base + i + p] = true;
+        }
+        cursor = base + k;
+    };
+    for (pi, p) in PERIODS.iter().enumerate() {
+        place(&mut seq, &mut taken, 10 + pi * K, K, *p);
+    }
+    for (pi, p) in MINOR_PERIODS.iter().enumerate() {
+        place(&mut seq, &mut taken, 10 + 4 * K + pi * K2, K2, *p);
     }
     for (i, w) in WRAPS.iter().enumerate() {
-        // a wrap index that is already a visit of a test pixel keeps it
-        if seq[*w].0 < 2 {
-            seq[*w] = (2 + (i + variant) % 8, (i + variant) % 2);
-        }
+        seq[*w] = (2 + (i + variant) % 8, (i + variant) % 2);
     }
     seq
 }
